@@ -28,11 +28,18 @@ Record world := {
   w_miss_contrast : bool;
   w_ai_consistent : bool;     (* llm.setup_*_llm_client: key and endpoint both set or both unset *)
   w_output : bool;            (* --output given *)
-  w_write_ok : bool           (* open(output, "w") and the write succeed *)
+  w_write_ok : bool;          (* open(output, "w") and the write succeed *)
+  w_write_partial : bool      (* when they do not: open() succeeded and a truncated file stays behind (disk full ...) *)
 }.
 
+(** what is at the --output path afterwards *)
+Inductive report_state :=
+| RNone      (* nothing that was not there before *)
+| RPartial   (* a file that is not a complete report *)
+| RFull.     (* the report *)
+
 Inductive outcome :=
-| Exit (status : Z) (report_written : bool)
+| Exit (status : Z) (report : report_state)
 | Crash.      (* an exception escapes run(): traceback; the interpreter's status for it is 1 *)
 
 Record exit_tables := {
@@ -81,7 +88,7 @@ Definition group_consumed (g : result_group) : bool :=
 Definition all_groups : list result_group := [GrSonarIssues; GrSonarHotspots; GrDefectDojo; GrContrast].
 
 Definition on_guard (chain : list (guard_id * Z)) (g : guard_id) : outcome :=
-  match guard_code g chain with Some c => Exit c false | None => Crash end.
+  match guard_code g chain with Some c => Exit c RNone | None => Crash end.
 
 (** the body of run() after parse_args *)
 Definition run_body (T : exit_tables) (w : world) : outcome :=
@@ -97,18 +104,20 @@ Definition run_body (T : exit_tables) (w : world) : outcome :=
       (* apply_codemods: int("x") in the line filter, ThreadPoolExecutor(max_workers <= 0) *)
       if w_bad_line w || w_bad_workers w then Crash else
       if w_output w then
-        if w_write_ok w then Exit 0 true
-        else if t_write_used T then match guard_code GReportWrite chain with Some c => Exit c false | None => Exit 0 false end
-        else Exit 0 false
-      else Exit 0 false
+        if w_write_ok w then Exit 0 RFull
+        else
+          let left := if w_write_partial w then RPartial else RNone in   (* write_report catches the exception; the file is not removed *)
+          if t_write_used T then match guard_code GReportWrite chain with Some c => Exit c left | None => Exit 0 left end
+          else Exit 0 left
+      else Exit 0 RNone
   end.
 
 Definition run_exit (T : exit_tables) (w : world) : outcome :=
   match w_argparse w with
-  | ParseErr => Exit (t_argparse_code T) false
-  | EarlyExit0 => Exit 0 false
+  | ParseErr => Exit (t_argparse_code T) RNone
+  | EarlyExit0 => Exit 0 RNone
   | Args =>
-      if t_workers_validated T && w_bad_workers w then Exit (t_argparse_code T) false   (* the type function raises: parser.error *)
+      if t_workers_validated T && w_bad_workers w then Exit (t_argparse_code T) RNone   (* the type function raises: parser.error *)
       else if chain_canonical (t_chain T) then run_body T w
       else Crash    (* a chain in another order is outside what the pipeline models *)
   end.
